@@ -56,7 +56,8 @@ BOUNDS = {
               "round2_runs": [["links", "lower", "on"], ["links", "title", "on"], ["links", "upper", "off"], ["links", "swapsep", "replacement"],
                               ["hdr", "title", "nokeys"], ["hdr", "upper", "nomarkers"], ["hdr", "lower", "both"]],
               "network_error_operation_in_groups": list(NETERR_GROUPS), "response_headers_with_two_values": ["set-cookie"],
-              "cli_runs": 47, "curl_spellings": 6, "curl_configs": 9, "curl_locations": 3, "curl_variants": 5},
+              "userinfo_shapes": "plain | '@' in the password | '@' in the user | ':' in the password (as_curl: all; CLI: one run per non-plain shape)",
+              "cli_runs": 50, "curl_spellings": 6, "curl_configs": 9, "curl_locations": 3, "curl_variants": 5},
     "thorough": {"groups": ["hdr", "auth", "userinfo", "secgen"],
                  "spellings": ["lower", "upper", "title", "alt", "swapsep", "swapsep_upper"],
                  "configs": ["on", "off", "keys", "markers", "replacement", "extend"],
@@ -64,7 +65,8 @@ BOUNDS = {
                  "round2_configs": ["nokeys", "nomarkers", "both"], "round2_groups": ["links (stateful, every config x spelling)",
                                                                                       "hdr (round2_configs x spelling)"],
                  "network_error_operation_in_groups": list(NETERR_GROUPS), "response_headers_with_two_values": ["set-cookie"],
-                 "cli_runs": 440, "curl_spellings": 6, "curl_configs": 9, "curl_locations": 3, "curl_variants": 5},
+                 "userinfo_shapes": "plain | '@' in the password | '@' in the user | ':' in the password (as_curl: all; CLI: userinfo and links groups x on/off... per non-plain shape)",
+                 "cli_runs": 476, "curl_spellings": 6, "curl_configs": 9, "curl_locations": 3, "curl_variants": 5},
 }
 BUDGET_S = {"quick": 140, "thorough": 2400}
 CHUNK = 1
